@@ -283,3 +283,65 @@ pub(super) fn verif_dedup(items: Vec<(String, Vec<String>)>) -> Vec<usize> {
     }
     kept
 }
+
+/// Verification hook (feature `verif`): run `translate_wildcards` on plain data.
+/// `decls` lists `(cid, riid, is_wildcard)` for relation columns (every other cid is a computed
+/// column), `instances` lists `(riid, original_cids)`. Returns the output cids and the exclusions
+/// (sorted by star cid, each exclusion set sorted).
+#[cfg(feature = "verif")]
+pub(super) fn verif_wildcards(
+    cols: Vec<usize>,
+    decls: Vec<(usize, usize, bool)>,
+    instances: Vec<(usize, Vec<usize>)>,
+) -> (Vec<usize>, Vec<(usize, Vec<usize>)>) {
+    use crate::ir::rq;
+    use crate::sql::pq::context::RelationInstance;
+
+    let mut ctx = AnchorContext::default();
+    for cid in &cols {
+        let compute = rq::Compute {
+            id: CId::from(*cid),
+            expr: rq::Expr {
+                kind: rq::ExprKind::Literal(crate::pr::Literal::Null),
+                span: None,
+            },
+            window: None,
+            is_aggregation: false,
+        };
+        ctx.column_decls
+            .insert(CId::from(*cid), ColumnDecl::Compute(Box::new(compute)));
+    }
+    for (cid, riid, is_wildcard) in decls {
+        let col = if is_wildcard {
+            RelationColumn::Wildcard
+        } else {
+            RelationColumn::Single(Some(format!("c{cid}")))
+        };
+        ctx.column_decls.insert(
+            CId::from(cid),
+            ColumnDecl::RelationColumn(riid.into(), CId::from(cid), col),
+        );
+    }
+    for (riid, original_cids) in instances {
+        ctx.relation_instances.insert(
+            riid.into(),
+            RelationInstance {
+                table_ref: rq::TableRef {
+                    source: rq::TId::from(riid),
+                    columns: Vec::new(),
+                    name: None,
+                    prefer_cte: false,
+                },
+                cid_redirects: HashMap::new(),
+                original_cids: original_cids.into_iter().map(CId::from).collect(),
+            },
+        );
+    }
+    let (output, excluded) = translate_wildcards(&ctx, cols.into_iter().map(CId::from).collect());
+    let excluded = excluded
+        .into_iter()
+        .map(|(k, v)| (k.get(), v.into_iter().map(|c| c.get()).sorted().collect_vec()))
+        .sorted()
+        .collect_vec();
+    (output.into_iter().map(|c| c.get()).collect(), excluded)
+}
